@@ -1697,6 +1697,7 @@ func main() {
 		out.Add(lib.Case{Term: term(in, res), JSON: map[string]interface{}{"input": in, "observed": res},
 			Sig: sig(in), Kind: kind, Shape: shapeOf(in), Nontriv: changed >= 2})
 		out.Count("relation", in.Rel)
+		out.Count("owners_start", map[bool]string{true: "with links, preloaded", false: "without links"}[in.Preload])
 		out.Count("kind", rels[in.Rel].Kind)
 		out.Count("handle", map[bool]string{true: "struct", false: fmt.Sprint("slice", len(in.Owners))}[in.Single])
 		out.Count("ops", fmt.Sprint(len(in.Ops)))
@@ -1707,6 +1708,23 @@ func main() {
 				u = "unscoped "
 			}
 			out.Count("op", u+o.Op)
+			if o.Op == "append" || o.Op == "replace" {
+				fk, ref := "unset", "objects of their own"
+				for _, l := range o.FKMem {
+					for _, k := range l {
+						if k == -1 && fk == "unset" {
+							fk = "loaded from the database"
+						} else if k > 0 {
+							fk = "another key written into the object"
+						}
+					}
+				}
+				if o.Refs != nil {
+					ref = "elements of the owner's own field (" + o.RefMode + ")"
+				}
+				out.Count("passed_object_key", fk)
+				out.Count("argument_alias", ref)
+			}
 		}
 		nerr := 0
 		for _, s := range res.Snaps {
@@ -1777,6 +1795,6 @@ func main() {
 		out.Count("known_shape", sig(in))
 		add(kind, in)
 	}
-	out.Extra["rule"] = "cases = histories of 1..8 (thorough 12) operations Append/Replace/Delete/Clear, each scoped or Unscoped, on one relation of kind {has one (pointer field / field by value), has many (by tags / by naming convention), polymorphic has many and polymorphic has one (next to rows of ANOTHER owner type that carry the same owner ids, and that may be moved into the relation or named in its Delete), belongs to, belongs to by value, many2many with struct elements / pointer elements / every key named by tags / self-referential, polymorphic with renamed type and id columns, has many / many2many whose TARGETS have composite string keys that differ only in where the identity-key separator and escape character sit, has many / has one whose foreign key references a NON-primary owner field (member number != id; one owner's member number is another owner's id)}, optionally with Session{FullSaveAssociations: true}, through db.Model(&owner) or db.Model(&owners) (a fresh *Association per call, or - one history in five - ONE handle kept and reused for every operation, Count and Find) with 1..3 owners that start without links, next to 0..2 outside owners with existing links; every operation also with no target at all (Append(), Replace(), Delete()); targets are new records, existing unlinked rows, rows linked to the same owner, rows linked to outside owners, and duplicates (equal copies or THE SAME object repeated inside a slice argument and followed by further targets; variadic, one slice argument, or a Go array &[N]T / [N]*T; Delete may name the very record held by the first owner's relation field); Count(), Find(), raw foreign keys / join rows of the handle AND of every other owner / owner type, the target table and the in-memory fields are read after every operation; domain: for has one / has many / polymorphic a target is never given to two different owners of one handle; distinct = distinct (relation, handle, table sizes, operation sequence with sizes) shapes; non-trivial = the stored links change at least twice"
+	out.Extra["rule"] = "cases = histories of 1..8 (thorough 12) operations Append/Replace/Delete/Clear, each scoped or Unscoped, on one relation of kind {has one (pointer field / field by value), has many (by tags / by naming convention), polymorphic has many and polymorphic has one (next to rows of ANOTHER owner type that carry the same owner ids, and that may be moved into the relation or named in its Delete), belongs to, belongs to by value, many2many with struct elements / pointer elements / every key named by tags / self-referential, polymorphic with renamed type and id columns, has many / many2many whose TARGETS have composite string keys that differ only in where the identity-key separator and escape character sit, has many / has one whose foreign key references a NON-primary owner field (member number != id; one owner's member number is another owner's id)}, optionally with Session{FullSaveAssociations: true}, through db.Model(&owner) or db.Model(&owners) (a fresh *Association per call, or - one history in five - ONE handle kept and reused for every operation, Count and Find) with 1..3 owners that start without links or - one history in three - WITH links, loaded with Preload(rel), next to 0..2 outside owners with existing links; every operation also with no target at all (Append(), Replace(), Delete()); targets are new records, existing unlinked rows, rows linked to the same owner, rows linked to outside owners, and duplicates (equal copies or THE SAME object repeated inside a slice argument and followed by further targets; variadic, one slice argument, or a Go array &[N]T / [N]*T; Delete may name the very record held by the first owner's relation field; Append / Replace arguments may BE elements of the owner's own in-memory relation field - &owner.Rel[p], the held pointer, the sub-slice owner.Rel[p:p+1] - in any order, mixed with objects of their own); the foreign-key FIELD of a passed has-one / has-many object holds nothing, or what its row holds (the object is loaded with db.First), or the key of an owner of the handle / an outside owner / nobody / an owner of the other polymorphic type; Count(), Find(), raw foreign keys / join rows of the handle AND of every other owner / owner type, the target table, the in-memory fields and the foreign-key field of every element they hold are read after every operation; domain: for has one / has many / polymorphic a target is never given to two different owners of one handle; distinct = distinct (relation, handle, table sizes, operation sequence with sizes) shapes; non-trivial = the stored links change at least twice"
 	lib.Must(out.Flush())
 }
